@@ -249,7 +249,23 @@ fn cop_strategy() -> impl Strategy<Value = COp> {
 pub fn ccase_strategy() -> impl Strategy<Value = CCase> {
     (prop::collection::vec(prop::collection::vec(cop_strategy(), 1..4), 2..4), prop::collection::vec(prop_oneof![3 => Just(0u16), 2 => any::<u16>()], 0..40)).prop_map(|(clients, schedule)| CCase { clients, schedule, snapshot: None, on_disk_prelude: false })
         .prop_flat_map(|c| prop_oneof![2 => Just(None), 1 => Just(Some(false)), 1 => Just(Some(true))].prop_map(move |s| CCase { snapshot: s, ..c.clone() }))
-        .prop_flat_map(|c| prop::bool::weighted(0.5).prop_map(move |p| CCase { on_disk_prelude: p && c.snapshot.is_some(), ..c.clone() }))
+}
+
+/// C06's use of this engine: every case has a snapshot task, the on-disk prelude and the restart phase; what the
+/// restart phase finds is C06's business and carries its name
+pub fn ccase_strategy_for_c06() -> impl Strategy<Value = CCase> {
+    (ccase_strategy(), any::<bool>()).prop_map(|(c, reclaim)| CCase { snapshot: Some(c.snapshot.unwrap_or(reclaim)), on_disk_prelude: true, ..c })
+}
+
+pub fn conc_guard_for_c06(ctx: &Ctx, c: &CCase) -> Outcome {
+    let mut o = conc_guard(ctx, c);
+    // (only the restart phase is judged here: the replies are C02's)
+    o.fail = match o.fail.take() {
+        Some((sig, d)) if sig.starts_with("C02|after-writes-during-a-snapshot") => Some((sig.replacen("C02|", "C06|", 1), d)),
+        _ => None,
+    };
+    o.nontrivial = o.classes.contains(&"restart-after-a-snapshot-that-ran-among-writers");
+    o
 }
 
 /// one completed call
@@ -613,7 +629,7 @@ pub fn run_conc(ctx: &Ctx, case: &CCase) -> Result<Outcome, String> {
     Ok(out)
 }
 
-fn conc_guard(ctx: &Ctx, c: &CCase) -> Outcome {
+pub fn conc_guard(ctx: &Ctx, c: &CCase) -> Outcome {
     match run_conc(ctx, c) {
         Ok(o) => o,
         Err(e) => {
